@@ -356,12 +356,14 @@ PROPS["C14"] = {
 PROPS["C15"] = {
     "programs": {
         "quick": [P("test", "VerifLinkMapContract", must_reach=("end", "absent-key", "present-key"), links=2),
-                  P("test", "VerifHamtReaderWellFormed", must_reach=("end", "member", "non-member", "iterate", "enumerate-then-lookup", "lookup-then-enumerate"))],
+                  P("test", "VerifHamtReaderWellFormed", must_reach=("end", "member", "non-member", "iterate", "enumerate-then-lookup", "lookup-then-enumerate")),
+                  P("hamt", "VerifMatchKey"), P("hamt", "VerifIsValueLink"), P("hamt", "VerifTransformName"),
+                  P("test", "VerifShardedDir", lg=3, entries=2, maxdepth=2)],
         "thorough": [P("test", "VerifLinkMapContract", must_reach=("end", "absent-key", "present-key"), links=3),
                      P("test", "VerifHamtReaderWellFormed", must_reach=("end", "member", "non-member", "iterate", "enumerate-then-lookup", "lookup-then-enumerate")),
                      P("test", "VerifShardedDir", lg=3, entries=3, maxdepth=2)],
     },
-    "bounds": {"quick": "link lists of 0..2 links (names absent or 0..2 arbitrary bytes, so empty and duplicate names arise as solver cases; sizes present or not), plain directory and generic link map, probe key of 0..2 arbitrary bytes; 4 hand-built well-formed HAMT shapes",
+    "bounds": {"quick": "link lists of 0..2 links (names absent or 0..2 arbitrary bytes, so empty and duplicate names arise as solver cases; sizes present or not), plain directory and generic link map, probe key of 0..2 arbitrary bytes; 4 hand-built well-formed HAMT shapes; the shard name kernels (key match, link classification, prefix stripping) over all names/keys of the bound; builder-written 2-entry HAMT with a non-member probe that is unrelated to / a suffix / a prefix / an extension of an entry name and has an arbitrary hash",
                "thorough": "3 links; builder-written HAMTs with 3 entries"},
     "assumptions": [], "outside": "",
 }
@@ -392,7 +394,7 @@ PROPS["C17"] = {
                            P("test", "VerifHamtConcurrentReadersJoint", must_reach=("end", "conflicting-accesses-checked")),
                            P("test", "VerifFileConcurrentReadersJoint", must_reach=("end", "conflicting-accesses-checked"))]},
     "native_race_test": ("test", "TestVerifC17Race"),
-    "bounds": {"quick": "2 threads; every pair of {lookup first entry, lookup last entry, Length, full iteration} on 3 hand-built HAMT shapes, cold and pre-warmed cache; two readers of one multi-block file node (2..4 chunks); every interleaving of the recorded accesses to the node's internal cells (one symbolic 8-bit position per event of thread 1 = number of thread-2 events before it; mutex and sync.Once semantics as constraints); results equal to the solo results in both orders. Joint programs: the two operations recorded one after the other on ONE node with deep tracing (objects published into the node are traced under per-object names), every schedule that preserves each read's writer; HAMT shapes x 4x4 operation pairs, file with two interior levels (3..5 chunks, width 2), each reader reading the whole file then seeking to the end"},
+    "bounds": {"quick": "2 threads; every pair of {lookup first entry, lookup last entry, Length, full iteration} on 3 hand-built HAMT shapes, cold and pre-warmed cache; two readers of one multi-block file node (2..4 chunks); every interleaving of the recorded accesses to the node's internal cells (one symbolic 8-bit position per event of thread 1 = number of thread-2 events before it; mutex and sync.Once semantics as constraints); results equal to the solo results in both orders. Joint programs: the two operations recorded one after the other on ONE node with deep tracing (objects published into the node are traced under per-object names), every schedule that preserves each read's writer; HAMT shapes x 4x4 operation pairs, file with two interior levels (3..5 chunks, width 2) or hand-built over three dag-pb leaves with and without BlockSizes, each reader reading from its own start offset to the end, then seeking to the end"},
     "assumptions": ["joint programs: predicted schedules are restricted to those in which every read sees the same writer as in the recorded run (so the recorded traces remain the threads' real executions); recorded orders A;B only (B;A is the same pair of operations for the file program and is a separate path for the HAMT program, which explores every ordered pair)",
                     "each thread's access trace is recorded from its solo execution on the shared node's initial state (cold or warmed) by the engine's shared-cell tracer; a race is a schedule, found by z3, in which two conflicting accesses are adjacent; races are confirmed natively by running the same operations under the Go race detector (a schedule cannot be imposed natively)",
                     "below the granularity of recorded cell accesses the Go memory model is not modelled"],
@@ -401,12 +403,13 @@ PROPS["C17"] = {
 
 # ---------------------------------------------------------------- C18
 PROPS["C18"] = {
+    "native_any_label": True,  # replays share one process: a change that keeps state across imports fails natively under another label of the same harness
     "programs": {
         "quick": [P("test", "VerifRecursiveImport", must_reach=("end", "other-kind"), depth=1, entries=2)],
         "thorough": [P("test", "VerifRecursiveImport", must_reach=("end", "other-kind"), depth=2, entries=2),
                      P("test", "VerifRecursiveImport", must_reach=("end", "other-kind"), depth=1, entries=3)],
     },
-    "bounds": {"quick": "trees of depth<=1 (root + up to 2 entries), each node's kind given by an ARBITRARY 32-bit mode word (the importer's own IsDir/Type/IsRegular tests run symbolically), names 1 byte a..z, file contents 0..2 arbitrary bytes, link targets 1..2 non-NUL bytes; symlinks never opened / listed",
+    "bounds": {"quick": "every tree is imported twice, the second time into a fresh store (root links equal, second DAG complete in its own store); trees of depth<=1 (root + up to 2 entries), each node's kind given by an ARBITRARY 32-bit mode word (the importer's own IsDir/Type/IsRegular tests run symbolically), names 1 byte a..z, file contents 0..2 arbitrary bytes, link targets 1..2 non-NUL bytes; symlinks never opened / listed",
                "thorough": "depth 2; 3 entries"},
     "assumptions": ["os.Lstat/ReadDir/Readlink/Open/(*File).Read/Close are replaced by a model filesystem in the symbolic run; native replay materialises the witness tree in a real temp dir (mkfifo for 'other kinds')",
                     "directories crossing the auto-shard threshold are covered by C02's threshold program, not here"],
@@ -417,9 +420,10 @@ PROPS["C18"] = {
 PROPS["C19"] = {
     "programs": {"quick": [P("testutil", "VerifFixtureGenerators", must_reach=("end", "unixfs-directory", "custom-generator"), target=2048, freecoins=5, freenames=1),
                            P("testutil", "VerifFixtureGenerators", must_reach=("end", "unixfs-directory", "custom-generator"), target=2048, freecoins=0, freenames=3),
-                           P("testutil", "VerifFixtureFile")]},
+                           P("testutil", "VerifFixtureFile"),
+                           P("testutil", "VerifFixtureWrap", must_reach=("end", "with-siblings"))]},
     "native_any_label": True,
-    "bounds": {"quick": "UnixFSDirectory (default, sharded bit-width 3, custom child generator), GenerateDirectory (plain/sharded), UnixFSFile sizes 0..3, BuildDirectory; target size 2048; the first 5 dice and the first generated name are explorer-chosen (every value) — and, in a second program, the first 3 generated names (so repeated draws of one name arise) —, later draws are scripted (file, largest size, fresh name)"},
+    "bounds": {"quick": "UnixFSDirectory (default, sharded bit-width 3, custom child generator), GenerateDirectory (plain/sharded), UnixFSFile sizes 0..3, BuildDirectory; target size 2048; the first 5 dice and the first generated name are explorer-chosen (every value) — and, in a second program, the first 3 generated names (so repeated draws of one name arise) —, later draws are scripted (file, largest size, fresh name); WrapContent under paths of 1..3 segments, exclusive or with generated siblings before/after at every level: names, links, contents at every level and the wanted content at the path"},
     "assumptions": ["crypto/rand.Int and namegen are replaced by a scripted source (their draws are the symbolic inputs); native replay runs the real generators with a math/rand stream and accepts any failing assertion as confirmation"],
     "outside": "WrapContent with non-exclusive random siblings; larger target sizes",
 }
@@ -429,17 +433,19 @@ PROPS["C20"] = {
     "programs": {
         "quick": [P("test", "VerifFileFullReadOrder", must_reach=("end", "preload"), w=2, k=1, maxlen=6),
                   P("test", "VerifFileFullReadOrder", must_reach=("end", "preload", "repeated-block"), w=2, k=1, maxlen=4, distinct=0),
+                  P("test", "VerifHandBuiltReadOrder", must_reach=("end", "preload", "skewed-tsize", "two-levels")),
                   P("test", "VerifHamtReaderWellFormed", must_reach=("end", "member", "non-member", "iterate", "enumerate-then-lookup", "lookup-then-enumerate")),
                   P("test", "VerifHamtPreload", must_reach=("end", "missing")),
                   P("test", "VerifPathTraversal", must_reach=("end", "present", "absent"))],
         "thorough": [P("test", "VerifFileFullReadOrder", must_reach=("end", "preload"), w=2, k=1, maxlen=12),
                      P("test", "VerifFileFullReadOrder", must_reach=("end", "preload"), w=3, k=1, maxlen=13),
                      P("test", "VerifFileFullReadOrder", must_reach=("end", "preload", "repeated-block"), w=2, k=1, maxlen=5, distinct=0),
+                     P("test", "VerifHandBuiltReadOrder", must_reach=("end", "preload", "skewed-tsize", "two-levels")),
                      P("test", "VerifHamtReaderWellFormed", must_reach=("end", "member", "non-member", "iterate", "enumerate-then-lookup", "lookup-then-enumerate")),
                      P("test", "VerifHamtPreload", must_reach=("end", "missing")),
                      P("test", "VerifPathTraversal", must_reach=("end", "present", "absent"))],
     },
-    "bounds": {"quick": "files 0..6 chunks (width 2): first-request order of a full sequential read and of preload == independent depth-first link-order walk of the DISTINCT blocks (first occurrences; contents with repeated chunks up to 4 chunks included); HAMT iteration / Length / preload request shards in depth-first link order; lookups request path shards root-to-leaf; path traversal requests path blocks root-to-target",
+    "bounds": {"quick": "files 0..6 chunks (width 2): first-request order of a full sequential read and of preload == independent depth-first link-order walk of the DISTINCT blocks (first occurrences; contents with repeated chunks up to 4 chunks included); hand-built one- and two-level files with correct FileSize/BlockSizes whose raw-leaf links carry an exact or a skewed Tsize; HAMT iteration / Length / preload request shards in depth-first link order; lookups request path shards root-to-leaf; path traversal requests path blocks root-to-target",
                "thorough": "files to 12 / 13 chunks at widths 2, 3"},
     "assumptions": ["the shard cache is a Go map: any dependence of request order on its iteration order would show up under the engine's insertion-order maps only if the code iterated it; the code is also checked with explorer-chosen map orders in C10/C16"],
     "outside": "",
